@@ -58,7 +58,7 @@ func BuildKernsim() (string, error) {
 	if out, err := exec.Command("python3", filepath.Join(vd, "kernsim", "genmaps.py"), tproxy, dir).CombinedOutput(); err != nil {
 		return "", fmt.Errorf("genmaps: %v: %s", err, out)
 	}
-	tmp := bin + ".tmp"
+	tmp := fmt.Sprintf("%s.tmp%d", bin, os.Getpid())
 	args := append(append([]string(nil), flags...),
 		"-I", filepath.Join(vd, "cshim"), "-I", dir, "-I", filepath.Join(repo, "control", "kern"),
 		"-DTPROXY_C=\""+tproxy+"\"", filepath.Join(vd, "kernsim", "kernsim.c"), "-o", tmp)
@@ -94,7 +94,7 @@ func StartKernsim(id, tag string) (*KS, error) {
 	if err != nil {
 		return nil, err
 	}
-	dir := filepath.Join(VerifDir(), "build", "replay", id)
+	dir := filepath.Join(BuildDir(), "replay", id)
 	_ = os.MkdirAll(dir, 0o755)
 	k := &KS{}
 	k.Replay = filepath.Join(dir, fmt.Sprintf("%s-kernsim-%s-seed%d.cmds", id, tag, Seed()))
